@@ -269,6 +269,10 @@ func pickRepr(r *Rng, z int64) *sx.Node {
 	return pick(r, rs)
 }
 
+// rawBoundPct: percentage of bounded numbers that rawFor puts exactly on one of their bounds (0 = off; set by
+// the families that compare two schemas on the same inputs).
+var rawBoundPct int
+
 // rawFor generates a raw value the schema (probably) accepts.
 func rawFor(r *Rng, t *sx.Node, sc scopeCtx, depth int) *sx.Node {
 	if !t.IsList() {
@@ -291,6 +295,14 @@ func rawFor(r *Rng, t *sx.Node, sc scopeCtx, depth int) *sx.Node {
 		if hi < lo {
 			return vI("i64", lo)
 		}
+		if rawBoundPct > 0 && r.Chance(rawBoundPct) { // exactly at a declared bound (bounds are inclusive)
+			if !isNone(t.List[2]) && (isNone(t.List[1]) || r.Bool()) {
+				return pickRepr(r, hi)
+			}
+			if !isNone(t.List[1]) {
+				return pickRepr(r, lo)
+			}
+		}
 		return pickRepr(r, lo+int64(r.Intn(int(hi-lo+1))))
 	case "float":
 		if !isNone(t.List[3]) && r.Chance(50) {
@@ -304,6 +316,14 @@ func rawFor(r *Rng, t *sx.Node, sc scopeCtx, depth int) *sx.Node {
 			hi = flFromSx(t.List[2])
 		}
 		x := lo + float64(r.Intn(1000))/1000*(hi-lo)
+		if rawBoundPct > 0 && r.Chance(rawBoundPct) { // exactly at a declared bound (bounds are inclusive)
+			if !isNone(t.List[2]) && (isNone(t.List[1]) || r.Bool()) {
+				return vF("f64", hi)
+			}
+			if !isNone(t.List[1]) {
+				return vF("f64", lo)
+			}
+		}
 		switch r.Intn(5) {
 		case 0:
 			return vS(fmtG(x))
@@ -318,6 +338,9 @@ func rawFor(r *Rng, t *sx.Node, sc scopeCtx, depth int) *sx.Node {
 			return vS(pick(r, []string{"abc", "123", "ab", "foo", "c", "ac", "Abc_1", "zzz"}))
 		}
 		lo, hi := optI(t.List[1], 0), optI(t.List[2], 6)
+		if hi-lo > 1000 || hi-lo < 0 { // a bound near MaxInt64: stay near the minimum
+			hi = lo + 3
+		}
 		n := lo
 		if hi > lo {
 			n += int64(r.Intn(int(hi - lo + 1)))
@@ -344,6 +367,9 @@ func rawFor(r *Rng, t *sx.Node, sc scopeCtx, depth int) *sx.Node {
 		return vS(pick(r, vals).List[0].Str)
 	case "list":
 		lo, hi := optI(t.List[2], 0), optI(t.List[3], 3)
+		if hi-lo > 1000 || hi-lo < 0 {
+			hi = lo + 3
+		}
 		n := lo
 		if hi > lo {
 			n += int64(r.Intn(int(hi - lo + 1)))
